@@ -12,9 +12,13 @@ import tuner_cases as tc
 MAX_T = 9
 
 
-def build_scheduler(name, seed, mode):
+def build_scheduler(name, seed, mode, max_resource_attr=False):
+    """max_resource_attr=True: Hyperband writes the level up to which a (re)started job should train into
+    config["epochs"] (promotion type: the next rung level), so that jobs end by themselves at rung levels."""
     from syne_tune.config_space import randint, uniform
     space = {"x": randint(0, 1000), "lr": uniform(0.0, 1.0)}
+    if max_resource_attr:
+        space["epochs"] = MAX_T
     kw = dict(metric="m", mode=mode, random_seed=seed)
     if name == "fifo_random":
         from syne_tune.optimizer.schedulers.fifo import FIFOScheduler
@@ -28,8 +32,9 @@ def build_scheduler(name, seed, mode):
             extra = dict(rung_system_kwargs={"num_threshold_candidates": 1}, points_to_evaluate=[{"x": 3, "lr": 0.3}])
         if typ == "cost_promotion":
             extra = dict(cost_attr="st_worker_cost")
-        return HyperbandScheduler(space, searcher="random", type=typ, resource_attr="epoch", max_t=MAX_T,
-                                  grace_period=1, reduction_factor=3, brackets=1 + seed % 2, **extra, **kw)
+        res = dict(max_resource_attr="epochs") if max_resource_attr else dict(max_t=MAX_T)
+        return HyperbandScheduler(space, searcher="random", type=typ, resource_attr="epoch",
+                                  grace_period=1, reduction_factor=3, brackets=1 + seed % 2, **res, **extra, **kw)
     if name == "dehb":
         from syne_tune.optimizer.schedulers.synchronous import GeometricDifferentialEvolutionHyperbandScheduler
         return GeometricDifferentialEvolutionHyperbandScheduler(space, resource_attr="epoch", max_resource_level=MAX_T,
